@@ -12,7 +12,14 @@
                       evaluating the kernel / distance / features callback)
        spec outcome   none | <exception>
        merged map     kwid=T:value;... of pm_merge(request, DOCUMENTED defaults)  (numbers in binary)
-     T  dumps the documented and the generated tables as JSON lines, then END *)
+     T  dumps the documented and the generated tables as JSON lines, then END
+     P <na> { <kwid> <T> <value> }*na <nd> { <kwid> <T> <value> }*nd     structural probe of the container (wave 2):
+       the GENERATED bodies of parameter.hpp (gen_container) interpreted by Validate_Model.run_cstmt on the comma
+       expression A and the second set D; one line
+         dup=<0|1> ct=<ok|wrong_type> agree=<0|1> | <map of A> | <map of A after merge(D)> | <kwid>=found|missed;...
+       agree = 1 iff the walker's own functions (ps_build, pm_merge, wrong_type_vs, pm_lookup) give the same
+     B <pred id> <T: I|S> <nargs> { <num bits> <den bits> }*nargs <num bits> <den bits>
+       the GENERATED body of predicate number id (gen_predicates) applied to a value: prints 1 / 0 / none *)
 open C14_model
 
 let rec pos_of_int n = if n = 1 then XH else if n land 1 = 1 then XI (pos_of_int (n lsr 1)) else XO (pos_of_int (n lsr 1))
@@ -123,6 +130,62 @@ let () =
       let w = Array.of_list (List.filter (fun s -> s <> "") (String.split_on_char ' ' (String.trim line))) in
       if Array.length w > 0 && w.(0) = "T" then begin
         dump_table "doc" doc_tables; dump_table "gen" gen_tables; print_string "END\n"
+      end;
+      if Array.length w > 0 && w.(0) = "P" then begin
+        (try
+          let i = ref 1 in
+          let read_list () =
+            let n = int_of_string w.(!i) in
+            incr i;
+            let l = ref [] in
+            for _ = 1 to n do
+              let kw = int_of_string w.(!i) and ty = w.(!i + 1) in
+              if ty = "S" then begin
+                l := (nat_of_int kw, parse_value ty w.(!i + 2) w.(!i + 3)) :: !l; i := !i + 4
+              end else begin
+                l := (nat_of_int kw, parse_value ty w.(!i + 2) "") :: !l; i := !i + 3
+              end
+            done;
+            List.rev !l in
+          let la = read_list () in
+          let ld = read_list () in
+          (* D is built by add() alone: the map of ps_build *)
+          let dmap = (ps_build ld).ps_map in
+          let map_text m = String.concat ";" (List.map (fun (k, v) -> string_of_int (int_of_nat k) ^ "=" ^ value_text v) m) in
+          match comma_expression gen_container la with
+          | None -> print_string "STUCK\n"
+          | Some a ->
+            let w_build = ps_build la in
+            let dup = (match run_check gen_container a with CThrown SwMultiple -> "1" | CNormal _ -> "0" | _ -> "stuck") in
+            let w_dup = (match w_build.ps_dups with [] -> "0" | _ -> "1") in
+            let ct = (match run_check_types gen_container a dmap with
+                      | CThrown SwWrongType -> "wrong_type" | CNormal _ -> "ok" | _ -> "stuck") in
+            let w_ct = if List.exists (wrong_type_vs dmap) w_build.ps_map then "wrong_type" else "ok" in
+            let merged = (match run_merge gen_container a dmap with CNormal g -> Some g.ps_map | _ -> None) in
+            let w_merged = pm_merge w_build.ps_map dmap in
+            let ids = List.map fst la @ List.map fst ld @ [nat_of_int 777] in
+            let look k = (match run_index gen_container a k with
+                          | CReturned (_, Some _) -> "found" | CThrown SwMissed -> "missed" | _ -> "stuck") in
+            let w_look k = (match pm_lookup k w_build.ps_map with Some _ -> "found" | None -> "missed") in
+            let agree = a = w_build && dup = w_dup && ct = w_ct && merged = Some w_merged &&
+                        List.for_all (fun k -> look k = w_look k) ids in
+            Printf.printf "dup=%s ct=%s agree=%d | %s | %s | %s\n" dup ct (if agree then 1 else 0)
+              (map_text a.ps_map) (match merged with Some g -> map_text g | None -> "STUCK")
+              (String.concat ";" (List.map (fun k -> string_of_int (int_of_nat k) ^ "=" ^ look k) ids))
+        with _ -> print_string "BAD-REQUEST\n")
+      end;
+      if Array.length w > 0 && w.(0) = "B" then begin
+        (try
+          let id = int_of_string w.(1) in
+          let ty = if w.(2) = "I" then TIndex else TScalar in
+          let n = int_of_string w.(3) in
+          let q j = { qnum = z_of_bits w.(j); qden = pos_of_bits w.(j + 1) } in
+          let args = List.init n (fun a -> q (4 + 2 * a)) in
+          let x = q (4 + 2 * n) in
+          match List.find_opt (fun p -> int_of_nat p.pb_id = id) gen_predicates with
+          | None -> print_string "none\n"
+          | Some p -> print_string (if body_holds ty args p.pb_conj x then "1\n" else "0\n")
+        with _ -> print_string "BAD-REQUEST\n")
       end;
       if Array.length w > 0 && w.(0) = "R" then begin
         try
